@@ -416,6 +416,7 @@ pub fn run(tier: Tier) {
     environments_part::<V1024>(&mut ctx, tier, &k1024);
     let sh = Arc::new(Shared { k512, k1024, msgs: messages() });
     histories_part(&mut ctx, tier, sh);
+    crate::e5::run_part(&mut ctx, "sign");
     ctx.sample(json!({"cell":"falcon512 key LE64(0), message 'data1'","deviations":[[0,6],[3,8]],"meaning":"at sampler iteration 0 the environment answers z0=18,b=1,accept-if-possible; at iteration ~0.7n it answers z0=18,b=1,reject; all other draws from the default ChaCha stream"}));
     ctx.assume("seeds, messages and streams outside the enumerated alphabet are not covered; sign's correctness for arbitrary sampler outcomes reduces to (a) integral samples (by type), (b) float error < 1/2 so rounding recovers the lattice point (checked on every explored execution, incl. forced outliers), (c) both loops re-sample from scratch (forced retries)");
     ctx.assume("schedules: call-level interleavings are enumerated exhaustively; intra-call preemption is covered only by the free-running part (uncontrolled) and by the absence of shared mutable state in the sources");
@@ -423,6 +424,9 @@ pub fn run(tier: Tier) {
 }
 
 pub fn replay(case: &Value) -> Result<Option<String>, String> {
+    if case.get("kind").and_then(|k| k.as_str()) == Some("e5") {
+        return crate::e5::replay(case);
+    }
     let kind = case.get("kind").and_then(|k| k.as_str()).ok_or("no kind")?;
     match kind {
         "explore" => {
